@@ -228,6 +228,7 @@ theorem pushScalar_takeRest (ext : Ext) : ∀ (b : B) (x : SVal) (b' : B), pushS
   | .bytesView p ty v views buf, x, b', h => by
     simp only [pushScalar] at h
     obtain ⟨bs, _, h2⟩ := (bind_ok _ _ _).1 h
+    obtain ⟨⟨views', buf'⟩, _, h2⟩ := (bind_ok _ _ _).1 h2
     obtain ⟨v', h3, h4⟩ := (bind_ok _ _ _).1 h2
     cases h4
     simp [takeRest, setValidity_skel h3]
